@@ -63,6 +63,10 @@ package spine
 // ---------------------------------------------------------------------------------------
 // binding registry (C09, C10, C03)
 
+// representation invariant of the registry: every entry is a real entry between two real features (C05 relies on it)
+//@ define bindInv(c) = forall j int :: 0 <= j && j < len(c.bindingEntries) ==> c.bindingEntries[j] != nil && c.bindingEntries[j].ClientFeature != nil && c.bindingEntries[j].ServerFeature != nil
+//@ define subInv(c) = forall j int :: 0 <= j && j < len(c.subscriptionEntries) ==> c.subscriptionEntries[j] != nil && c.subscriptionEntries[j].ClientFeature != nil && c.subscriptionEntries[j].ServerFeature != nil
+
 //@ func (*BindingManager).checkRoleAndType
 //@   requires feature != nil
 //@   ensures[C09] truth: (result == nil) <==> (roleok(feature, role) && typeok(feature, featureType))
@@ -80,7 +84,9 @@ package spine
 //@   loop 0 invariant none-yet: forall m int :: 0 <= m && m < $k ==> !deepEqual($s[m].ClientFeature.Address(), remoteAddress)
 
 //@ func (*BindingManager).AddBinding safety-root
-//@   assumes c != nil && remoteDevice != nil && c.localDevice != nil
+//@   assumes c != nil && remoteDevice != nil && c.localDevice != nil && c.localDevice.Address() != nil
+//@   assumes bindInv(c)
+//@   ensures[C05] inv-kept: old(bindInv(c)) ==> bindInv(c)
 //@   requires c != nil && remoteDevice != nil && data.ClientAddress != nil && data.ServerAddress != nil
 //@   let SF = c.localDevice.FeatureByAddress(data.ServerAddress)
 //@   let CF = remoteDevice.FeatureByAddress(data.ClientAddress)
@@ -95,7 +101,9 @@ package spine
 //@   modifies c.bindingEntries, c.bindingNum, c.bindingEntries[len(c.bindingEntries)], @PUBLISH, held
 
 //@ func (*BindingManager).RemoveBinding safety-root
-//@   assumes c != nil && remoteDevice != nil && c.localDevice != nil
+//@   assumes c != nil && remoteDevice != nil && c.localDevice != nil && c.localDevice.Address() != nil
+//@   assumes bindInv(c)
+//@   ensures[C05] inv-kept: old(bindInv(c)) ==> bindInv(c)
 //@   requires c != nil && remoteDevice != nil && data.ClientAddress != nil && data.ServerAddress != nil
 //@   let SF = c.localDevice.FeatureByAddress(data.ServerAddress)
 //@   let CF = remoteDevice.FeatureByAddress(data.ClientAddress)
@@ -112,6 +120,7 @@ package spine
 //@   modifies c.bindingEntries, @PUBLISH, held
 //@   loop 0 invariant acc: newBindingEntries == nil || freshPre(newBindingEntries)
 //@   loop 0 invariant frame: unchangedPre(*api.BindingEntry)
+//@   loop 0 invariant nn: old(bindInv(c)) ==> forall j int :: 0 <= j && j < len(newBindingEntries) ==> newBindingEntries[j] != nil && newBindingEntries[j].ClientFeature != nil && newBindingEntries[j].ServerFeature != nil
 //@   loop 0 invariant len: len(newBindingEntries) == Fcnt($k)
 //@   loop 0 invariant elems: forall j int :: 0 <= j && j < $k && kept($s[j]) ==> newBindingEntries[Fcnt(j)] == $s[j]
 
@@ -121,6 +130,8 @@ package spine
 
 //@ func (*BindingManager).RemoveBindingsForEntity
 //@   requires c != nil
+//@   assumes bindInv(c)
+//@   ensures[C05] inv-kept: old(bindInv(c)) ==> bindInv(c)
 //@   let L0 = c.bindingEntries
 //@   define kept(e) = !onEntity(e.ClientFeature, remoteEntity)
 //@   filter F loop 0 src L0 keep kept
@@ -148,7 +159,9 @@ package spine
 //@   modifies c.subscriptionNum
 
 //@ func (*SubscriptionManager).AddSubscription safety-root
-//@   assumes c != nil && remoteDevice != nil && c.localDevice != nil
+//@   assumes c != nil && remoteDevice != nil && c.localDevice != nil && c.localDevice.Address() != nil
+//@   assumes subInv(c)
+//@   ensures[C05] inv-kept: old(subInv(c)) ==> subInv(c)
 //@   requires c != nil && remoteDevice != nil && data.ClientAddress != nil && data.ServerAddress != nil && data.ServerFeatureType != nil
 //@   let SF = c.localDevice.FeatureByAddress(data.ServerAddress)
 //@   let CF = remoteDevice.FeatureByAddress(data.ClientAddress)
@@ -164,7 +177,9 @@ package spine
 //@   loop 0 invariant none-yet: forall j int :: 0 <= j && j < $k ==> !($s[j].ServerFeature == SF && $s[j].ClientFeature == CF)
 
 //@ func (*SubscriptionManager).RemoveSubscription safety-root
-//@   assumes c != nil && remoteDevice != nil && c.localDevice != nil
+//@   assumes c != nil && remoteDevice != nil && c.localDevice != nil && c.localDevice.Address() != nil
+//@   assumes subInv(c)
+//@   ensures[C05] inv-kept: old(subInv(c)) ==> subInv(c)
 //@   requires c != nil && remoteDevice != nil && data.ClientAddress != nil && data.ServerAddress != nil
 //@   let SF = c.localDevice.FeatureByAddress(data.ServerAddress)
 //@   let CF = remoteDevice.FeatureByAddress(data.ClientAddress)
@@ -187,6 +202,8 @@ package spine
 
 //@ func (*SubscriptionManager).RemoveSubscriptionsForEntity
 //@   requires c != nil
+//@   assumes subInv(c)
+//@   ensures[C05] inv-kept: old(subInv(c)) ==> subInv(c)
 //@   let L0 = c.subscriptionEntries
 //@   define kept(e) = !onEntityAddr(e.ClientFeature, remoteEntity)
 //@   filter F loop 0 src L0 keep kept
